@@ -116,15 +116,21 @@ fn now_ms() -> usize {
     START.get_or_init(std::time::Instant::now).elapsed().as_millis() as usize + 1
 }
 
-const CASE_LIMIT_MS: usize = 10_000;
+/// limits of one case: CPU time of this (sequential) worker process, and - for a decode that blocks
+/// without burning CPU - wall-clock time. CPU time, because the wall clock of a case stretches
+/// arbitrarily when the machine is oversubscribed.
+const CASE_LIMIT_CPU_MS: usize = 20_000;
+const CASE_LIMIT_WALL_MS: usize = 300_000;
 
 fn start_watchdog() {
-    std::thread::spawn(|| loop {
-        std::thread::sleep(std::time::Duration::from_millis(250));
-        let started = CASE_STARTED_MS.load(Ordering::Relaxed);
-        if started != 0 && now_ms() > started + CASE_LIMIT_MS {
-            dump_current("timeout");
-            std::process::exit(3);
+    std::thread::spawn(|| {
+        let mut watch = CaseWatch::new();
+        loop {
+            std::thread::sleep(std::time::Duration::from_millis(250));
+            if watch.over(CASE_STARTED_MS.load(Ordering::Relaxed), now_ms(), CASE_LIMIT_CPU_MS, CASE_LIMIT_WALL_MS) {
+                dump_current("timeout");
+                std::process::exit(3);
+            }
         }
     });
 }
@@ -492,7 +498,7 @@ fn random_bytes_strategy() -> BoxedStrategy<(Vec<u8>, usize)> {
         .boxed()
 }
 
-const RULE: &str = "targets: UperReader::read::<T> and ProtobufReader::read::<T> for every type of the compiled zoo, and the DER reader primitives (identifier, length, boolean, integer_i64/u64, Integer<T>/Boolean through BasicReader). Inputs (proptest): (a) random byte strings (0..64 bytes, random / 00 / FF / boundary fills, and hostile self-delimiting numbers - long-form normally-small numbers, length-prefixed integers with k x FF, fragment headers - behind 0..23 random bits) with a random declared bit length; (a') for the DER readers also TLV-shaped input: identifier octet, a length in every form (short, 0x81..0x89 with small / huge / maximal values, indefinite, 0xFF) and fewer content octets than announced; (b) valid encodings of generated values with 1..3 faults from {truncate to a bit, flip a bit, insert / delete / overwrite a byte with a boundary value, duplicate a chunk}. Oracle per case: no panic; on Ok position <= declared length and identical result when every bit beyond the declared length is flipped and bytes are appended (over-read detector); bits_remaining() callable afterwards; peak allocation <= 64 MiB + 64 KiB x input bytes (counting global allocator); a case running > 10 s stops the worker and is confirmed 3x in isolation before it is reported. Non-trivial: the decoder consumed >= 8 bits, or the input is a mutated valid encoding; distinct = hash of (target, type, bytes, bit_len).";
+const RULE: &str = "targets: UperReader::read::<T> and ProtobufReader::read::<T> for every type of the compiled zoo, and the DER reader primitives (identifier, length, boolean, integer_i64/u64, Integer<T>/Boolean through BasicReader). Inputs (proptest): (a) random byte strings (0..64 bytes, random / 00 / FF / boundary fills, and hostile self-delimiting numbers - long-form normally-small numbers, length-prefixed integers with k x FF, fragment headers - behind 0..23 random bits) with a random declared bit length; (a') for the DER readers also TLV-shaped input: identifier octet, a length in every form (short, 0x81..0x89 with small / huge / maximal values, indefinite, 0xFF) and fewer content octets than announced; (b) valid encodings of generated values with 1..3 faults from {truncate to a bit, flip a bit, insert / delete / overwrite a byte with a boundary value, duplicate a chunk}. Oracle per case: no panic; on Ok position <= declared length and identical result when every bit beyond the declared length is flipped and bytes are appended (over-read detector); bits_remaining() callable afterwards; peak allocation <= 64 MiB + 64 KiB x input bytes (counting global allocator); a case using > 20 s of CPU time (or 300 s of wall clock) stops the worker and is confirmed 3x in isolation before it is reported. Non-trivial: the decoder consumed >= 8 bits, or the input is a mutated valid encoding; distinct = hash of (target, type, bytes, bit_len).";
 
 pub fn run(ctx: Ctx) -> i32 {
     let report = Report::new(ctx.clone(), RULE);
@@ -664,7 +670,7 @@ fn handle_dead_workers(report: &Report, bad: &[WorkerOutcome]) {
                     let status = loop {
                         match child.try_wait() {
                             Ok(Some(s)) => break Some(s),
-                            Ok(None) if t0.elapsed().as_secs() > 30 => {
+                            Ok(None) if t0.elapsed().as_secs() > 120 => {
                                 let _ = child.kill();
                                 let _ = child.wait();
                                 break None;
